@@ -117,6 +117,32 @@ func vsymApply(s Store, op int, off int64, meta string) vsymStoreObs {
 	case 19:
 		gs, err := s.ListConsumerGroups(ctx)
 		o.errClass, o.n = vsymErrClass(err), len(gs)
+	case 20:
+		cos, err := s.ListConsumerOffsets(ctx)
+		o.errClass, o.n = vsymErrClass(err), len(cos)
+		for _, c := range cos {
+			o.num += c.Offset
+			if c.Group != "g" && c.Group != "a:b" {
+				o.n += 1000
+			}
+			if c.Topic != "t" {
+				o.n += 10000
+			}
+		}
+	case 21:
+		o.errClass = vsymErrClass(s.CommitConsumerOffset(ctx, "a:b", "t", 1, off, meta))
+	case 22:
+		n, m, err := s.FetchConsumerOffset(ctx, "a:b", "t", 1)
+		o.num, o.str, o.errClass = n, m, vsymErrClass(err)
+	case 24:
+		o.errClass = vsymErrClass(s.UpdateTopicConfig(ctx, &metadatapb.TopicConfig{Name: "t", RetentionMs: off}))
+	case 23:
+		cfg, err := s.FetchTopicConfig(ctx, "t")
+		o.errClass = vsymErrClass(err)
+		if cfg != nil {
+			o.n = int(cfg.Partitions)
+			o.num = int64(cfg.ReplicationFactor)*(1<<41) + cfg.RetentionMs
+		}
 	}
 	return o
 }
@@ -135,7 +161,7 @@ func VsymC17_Equivalent() {
 	etcd := &EtcdStore{client: e.client("store"), metadata: NewInMemoryStore(vsymSnapshot()), available: 1}
 	metas := []string{"", "m1"}
 	for i := 0; i < k; i++ {
-		op := vsym_Choose("op", 20)
+		op := vsym_Choose("op", vsym_Param("menu"))
 		off := vsym_Int64("off")
 		vsym_Assume(vsym_And(off >= 0, off < 1<<40))
 		meta := metas[vsym_Choose("meta", 2)]
